@@ -8,3 +8,11 @@ import PqVerif.Props.C04
 #print axioms Pq.C04.int32_overflow_witness
 #print axioms Pq.C04.permanent_eq_permSpec
 #print axioms Pq.C04.permanent_none_of_ne
+#print axioms Pq.C04.match_edges_cover
+#print axioms Pq.C04.match_edges_cover_odd
+#print axioms Pq.C04.match_round_decreases
+#print axioms Pq.C04.match_single_vertex
+#print axioms Pq.C04.kept_edges_bounded
+#print axioms Pq.C04.kept_edges_injective
+#print axioms Pq.C04.kept_edges_complement
+#print axioms Pq.C04.pattern_weights_total
